@@ -236,6 +236,9 @@ def run(chk, repo):
     from rules.C10 import rule_cleave
     chk.clauses.append('C01.r (shared with C10.e / C04.h / C05.l) the canonical pool that variant peptides are filtered against holds exactly the digestion products of the proteome: the Met-removed form only for the N-terminal window')
     rule_cleave(chk, repo, rid='C01.r')
+    from rules.shared import w2f_scan_complete
+    chk.clauses.append('C01.s (shared with C08.i / C09.j) the W>F candidate scan covers every tryptophan of a variant peptide, the first and the last residue included')
+    w2f_scan_complete(chk, repo, 'C01.s')
 
 
 def skip_guard_contract(chk, repo, rid):
